@@ -364,6 +364,7 @@ class Ctx(object):
             sys.path.insert(0, VERIF)
         ea = importlib.import_module(module)
         ea.REPO = REPO
+        ea.PROP = self.prop          # a translator may emit only what this property's obligations use
         tag = 'regenerate-' + genfile[4:-2]
         try:
             res = ea.generate(os.path.join(gdir, genfile))
